@@ -2,6 +2,7 @@
 package c17
 
 import (
+	"time"
 	"bytes"
 	"errors"
 	"fmt"
@@ -32,6 +33,37 @@ var kindType = map[string]reflect.Type{
 	"float32": reflect.TypeOf(float32(0)), "float64": reflect.TypeOf(float64(0)), "string": reflect.TypeOf(""), "bytes": reflect.TypeOf([]byte(nil)),
 }
 
+// named types whose underlying types are the documented kinds (time.Duration is the everyday example)
+type (
+	nBool  bool
+	nInt   int
+	nI8    int8
+	nI16   int16
+	nI32   int32
+	nU     uint
+	nU8    uint8
+	nU16   uint16
+	nU32   uint32
+	nU64   uint64
+	nF32   float32
+	nF64   float64
+	nStr   string
+	nBytes []byte
+)
+
+var namedType = map[string]reflect.Type{
+	"bool": reflect.TypeOf(nBool(false)), "int": reflect.TypeOf(nInt(0)), "int8": reflect.TypeOf(nI8(0)), "int16": reflect.TypeOf(nI16(0)), "int32": reflect.TypeOf(nI32(0)), "int64": reflect.TypeOf(time.Duration(0)),
+	"uint": reflect.TypeOf(nU(0)), "uint8": reflect.TypeOf(nU8(0)), "uint16": reflect.TypeOf(nU16(0)), "uint32": reflect.TypeOf(nU32(0)), "uint64": reflect.TypeOf(nU64(0)),
+	"float32": reflect.TypeOf(nF32(0)), "float64": reflect.TypeOf(nF64(0)), "string": reflect.TypeOf(nStr("")), "bytes": reflect.TypeOf(nBytes(nil)),
+}
+
+func typeOf(kind string, named bool) reflect.Type {
+	if named {
+		return namedType[kind]
+	}
+	return kindType[kind]
+}
+
 var errType = reflect.TypeOf((*error)(nil)).Elem()
 
 // an AWK argument with its known meaning
@@ -52,6 +84,7 @@ type Sig struct {
 	RetStr  h.Str   `json:"ret_str,omitempty"`
 	RetBool bool    `json:"ret_bool,omitempty"`
 	Fail    bool    `json:"fail,omitempty"` // returns a non-nil error
+	Named   bool    `json:"named,omitempty"` // parameter and result types are named types (time.Duration, type nStr string ...)
 }
 
 type Call struct {
@@ -137,7 +170,7 @@ func genCase(t *rapid.T) Case {
 	nsig := rapid.IntRange(1, 4).Draw(t, "nsig")
 	used := map[string]bool{}
 	for i := 0; i < nsig; i++ {
-		s := Sig{}
+		s := Sig{Named: rapid.IntRange(0, 3).Draw(t, "named") == 0}
 		for {
 			s.Name = rapid.SampledFrom(nameHeads).Draw(t, "head") + fmt.Sprintf("f%d", rapid.IntRange(0, 9).Draw(t, "num"))
 			if !used[s.Name] {
@@ -356,7 +389,7 @@ func zeroArg(kind string) string {
 	case "string":
 		return `string:""`
 	case "bytes":
-		return `bytes:""`
+		return "bytes:nil"
 	}
 	return kind + ":0"
 }
@@ -372,11 +405,14 @@ func render(v reflect.Value) string {
 	case reflect.String:
 		return fmt.Sprintf("string:%q", v.String())
 	case reflect.Slice:
+		if v.IsNil() {
+			return "bytes:nil" // the zero value of []byte, distinguishable from an empty slice
+		}
 		return fmt.Sprintf("bytes:%q", string(v.Bytes()))
 	case reflect.Int, reflect.Int8, reflect.Int16, reflect.Int32, reflect.Int64:
-		return fmt.Sprintf("%s:%d", v.Type().Name(), v.Int())
+		return fmt.Sprintf("%s:%d", v.Kind(), v.Int())
 	default:
-		return fmt.Sprintf("%s:%d", v.Type().Name(), v.Uint())
+		return fmt.Sprintf("%s:%d", v.Kind(), v.Uint())
 	}
 }
 
@@ -392,7 +428,7 @@ func run(x *h.Ctx, c Case) string {
 		i, s := i, s
 		var in []reflect.Type
 		for j, k := range s.Params {
-			t := kindType[k]
+			t := typeOf(k, s.Named)
 			if s.Variadic && j == len(s.Params)-1 {
 				t = reflect.SliceOf(t)
 			}
@@ -400,7 +436,7 @@ func run(x *h.Ctx, c Case) string {
 		}
 		var out []reflect.Type
 		if s.Result != "" {
-			out = append(out, kindType[s.Result])
+			out = append(out, typeOf(s.Result, s.Named))
 		}
 		if s.WithErr {
 			out = append(out, errType)
@@ -421,7 +457,7 @@ func run(x *h.Ctx, c Case) string {
 			log = append(log, fmt.Sprintf("%s(%s)", s.Name, strings.Join(rec, ", ")))
 			var res []reflect.Value
 			if s.Result != "" {
-				rv := reflect.New(kindType[s.Result]).Elem()
+				rv := reflect.New(typeOf(s.Result, s.Named)).Elem()
 				switch s.Result {
 				case "bool":
 					rv.SetBool(s.RetBool)
